@@ -82,6 +82,7 @@ func (c08) Cases(tier string, emit func(string, interface{})) {
 	for i := range members {
 		members[i] = i
 	}
+	members[n-1] = 9 // the last member re-declares fields of the type (n declarations => n locations)
 	for _, part := range gen.SetPartitions(n, k) {
 		if len(part) < 2 {
 			continue
@@ -90,6 +91,13 @@ func (c08) Cases(tier string, emit func(string, interface{})) {
 			blocks := [][]int{part[0]}
 			for _, p := range perm {
 				blocks = append(blocks, part[p+1])
+			}
+			for bi := range blocks {
+				mapped := make([]int, len(blocks[bi]))
+				for j, ix := range blocks[bi] {
+					mapped[j] = members[ix]
+				}
+				blocks[bi] = mapped
 			}
 			for _, place := range []string{"onefile", "chain", "star"} {
 				emit("split", c08Case{Label: fmt.Sprintf("split %v %s", blocks, place), Split: &c04Case{Members: members, Blocks: blocks, Place: place}, Layout: gen.DefaultLayout})
